@@ -12,6 +12,8 @@ from common import Inconclusive, WORK, VERIF
 sys.path.insert(0, os.path.join(VERIF, "bindgen"))
 import emit      # noqa: E402
 import driver    # noqa: E402
+import emit_cpp    # noqa: E402
+import driver_cpp  # noqa: E402
 
 FAKEBIN = os.path.join(VERIF, "bindgen", "fakebin")
 
@@ -64,6 +66,79 @@ def compile_check(path, wdir):
     return res
 
 
+def run_tool_cpp(binary, wdir, raw_text, config=None):
+    out = os.path.join(wdir, "out.hpp")
+    return run_tool(binary, wdir, raw_text, config=config, out_name="out.hpp", post_args=["--config", "cb.toml", "--crate", "api", "--output", out, "-l", "C++"])
+
+
+def compile_check_cpp(path, wdir, thorough=False):
+    """the processed header alone, first include of a TU, C++11 (the standard the tool documents)"""
+    res = {}
+    tu = os.path.join(wdir, "tu.cpp")
+    with open(tu, "w") as f:
+        f.write('#include "%s"\nint main() { return 0; }\n' % os.path.basename(path))
+    comps = [("g++", ["-std=c++11"]), ("clang++", ["-std=c++11"])] + ([("g++", ["-std=c++17"])] if thorough else [])
+    for cc, flags in comps:
+        r = common.run([cc] + flags + ["-fsyntax-only", "-w", "-I", wdir, tu], timeout=180)
+        res[cc + flags[0]] = (r["rc"], r["err"][:1500])
+    return res
+
+
+CALL_RE = re.compile(r"CALL w=(\w+) root=(\d+) known_params=(\d) nlog=(\d+)(.*) ret_ok=(-?\d+) box_drops=(\d+) arc_clones=(\d+) arc_drops=(\d+) clone_seq=(\d+) drop_first=(\d+) drop_last=(\d+)(?: after_box=(\d+) after_clones=(\d+) after_arc=(\d+))?")
+
+
+def parse_calls(text):
+    calls = []
+    for line in text.splitlines():
+        m = CALL_RE.match(line)
+        if m:
+            recs = [tuple(int(v) for v in t) for t in re.findall(r"\[root=(\d+) trait=(\d+) slot=(\d+) cont_ok=(\d+) args_ok=(\d+) seq=(\d+)\]", m.group(5))]
+            c = dict(w=m.group(1), root=int(m.group(2)), known=int(m.group(3)), nlog=int(m.group(4)), recs=recs, ret_ok=int(m.group(6)),
+                     box_drops=int(m.group(7)), arc_clones=int(m.group(8)), arc_drops=int(m.group(9)), clone_seq=int(m.group(10)), drop_first=int(m.group(11)), drop_last=int(m.group(12)))
+            if m.group(13) is not None:
+                c.update(after_box=int(m.group(13)), after_clones=int(m.group(14)), after_arc=int(m.group(15)))
+            calls.append(c)
+    return calls
+
+
+def cpp_error_class(err):
+    """stable class of a C++ compile failure (for signatures): what the first error is about"""
+    first = next((l for l in err.splitlines() if "error:" in l), "")
+    msg = first.split("error:", 1)[1].strip() if "error:" in first else "?"
+    if "incomplete type" in msg and ("NoContext" in err[:err.find(first) + 2000] or "context" in msg):
+        return "context-member-of-incomplete-type-NoContext", msg
+    if "is not a class template" in msg and "CGlueTraitObj" in msg:
+        return "CGlueTraitObj-specialised-but-never-declared", msg
+    msg = re.sub(r"\d+", "N", msg)
+    return "other", msg
+
+
+def drive_cpp(wdir, em, model, out_path, header_text, compilers=(("g++", "-std=c++11"),)):
+    """one driver per root type and compiler; returns dict(calls=[...], failures=[(root index, class, message)], roots_run)"""
+    calls, failures, ran = [], [], 0
+    for ri, r in enumerate(em.roots):
+        src, n = driver_cpp.gen_root_driver(os.path.basename(out_path), em, model, header_text, ri)
+        dp = os.path.join(wdir, "drv%d.cpp" % ri)
+        with open(dp, "w") as f:
+            f.write(src)
+        for ci, (cc, std) in enumerate(compilers):
+            exe = os.path.join(wdir, "drv%d_%d" % (ri, ci))
+            b = common.run([cc, std, "-g", "-O0", "-w", "-fsanitize=address,undefined", "-fno-sanitize-recover=undefined", "-I", wdir, "-o", exe, dp], timeout=300)
+            if b["rc"] != 0:
+                cls, msg = cpp_error_class(b["err"])
+                failures.append((ri, "compile:" + cls, msg[:300]))
+                continue
+            x = common.run([exe], env=common.env_with({"ASAN_OPTIONS": "detect_leaks=0:halt_on_error=1:exitcode=77"}), timeout=120)
+            if "DONE calls=" not in x["out"]:
+                m = re.search(r"ERROR: AddressSanitizer: ([^\n]*)|runtime error: ([^\n]*)", x["err"])
+                failures.append((ri, "crash", (m.group(0) if m else x["err"][:300])))
+                continue
+            if ci == 0:
+                calls += parse_calls(x["out"])
+            ran += 1
+    return dict(calls=calls, failures=failures, roots_run=ran, done=True, wrappers=[])
+
+
 def drive(wdir, em, model, out_path, header_text):
     src, wrappers = driver.gen_driver(os.path.basename(out_path), em, model, header_text)
     dp = os.path.join(wdir, "driver.c")
@@ -74,18 +149,13 @@ def drive(wdir, em, model, out_path, header_text):
     if r["rc"] != 0:
         return dict(build_error=r["err"][:3000], wrappers=wrappers, calls=[])
     x = common.run([exe], env=common.env_with({"ASAN_OPTIONS": "detect_leaks=0:halt_on_error=1:exitcode=77"}), timeout=120)
-    calls = []
-    for line in x["out"].splitlines():
-        m = re.match(r"CALL w=(\w+) root=(\d+) known_params=(\d) nlog=(\d+)(.*) ret_ok=(-?\d+) box_drops=(\d+) arc_clones=(\d+) arc_drops=(\d+) clone_seq=(\d+) drop_first=(\d+) drop_last=(\d+)", line)
-        if m:
-            recs = [tuple(int(v) for v in t) for t in re.findall(r"\[root=(\d+) trait=(\d+) slot=(\d+) cont_ok=(\d+) args_ok=(\d+) seq=(\d+)\]", m.group(5))]
-            calls.append(dict(w=m.group(1), root=int(m.group(2)), known=int(m.group(3)), nlog=int(m.group(4)), recs=recs, ret_ok=int(m.group(6)),
-                              box_drops=int(m.group(7)), arc_clones=int(m.group(8)), arc_drops=int(m.group(9)), clone_seq=int(m.group(10)), drop_first=int(m.group(11)), drop_last=int(m.group(12))))
+    calls = parse_calls(x["out"])
     return dict(run_rc=x["rc"], run_err=x["err"][:2000], done="DONE calls=" in x["out"], wrappers=wrappers, calls=calls)
 
 
-def judge(em, model, res):
-    """C17 oracle over the call log.  returns (violations [(sig, detail)], stats)"""
+def judge(em, model, res, only_roots=None):
+    """C17 oracle over the call log.  returns (violations [(sig, detail)], stats).
+    only_roots: restrict the completeness clauses to these root indices (C++: roots whose driver ran)"""
     viol = []
     covered = set()
     roots = em.roots
@@ -125,11 +195,16 @@ def judge(em, model, res):
                     viol.append(("C17:consuming-context-guard", "%s: context cloned %d times, released %d times (want 1 clone before the call and its release after; clone@%d call@%d last release@%d)" % (what, c["arc_clones"], c["arc_drops"], c["clone_seq"], seq, c["drop_last"])))
             if c["box_drops"] != (1 if r["inst"] == "Box" else 0):
                 viol.append(("C17:consuming-instance-release", "%s: instance released %d times" % (what, c["box_drops"])))
+            if "after_box" in c and (c["after_box"] != c["box_drops"] or c["after_arc"] != c["arc_drops"] or c["after_clones"] != c["arc_clones"]):
+                # C++: the moved-from object is destroyed afterwards; that must not release anything again
+                viol.append(("C17:consumed-object-released-again", "%s: destroying the consumed object changed the counts: instance %d->%d, context %d->%d" % (what, c["box_drops"], c["after_box"], c["arc_drops"], c["after_arc"])))
         else:
             if c["box_drops"] or c["arc_drops"] or c["arc_clones"]:
                 viol.append(("C17:borrowing-wrapper-touched-ownership", "%s: box drops %d, context clones %d, drops %d" % (what, c["box_drops"], c["arc_clones"], c["arc_drops"])))
     allslots = set()
     for ri, r in enumerate(roots):
+        if only_roots is not None and ri not in only_roots:
+            continue
         for ti, (tname, _, _) in enumerate(r["vtables"]):
             for si, m in enumerate(model.traits[tname].methods):
                 if m.ret == "CONT" and r["inst"] != "Box":
@@ -141,6 +216,8 @@ def judge(em, model, res):
         viol.append(("C17:entry-without-wrapper", "no wrapper reaches %s::%s of %s %s (%s, %s)" % (tname, model.traits[tname].methods[si].name, r["kind"], r["name"], r["inst"], r["ctx"] or "NoContext")))
     # drop helper per root
     for ri, r in enumerate(roots):
+        if only_roots is not None and ri not in only_roots:
+            continue
         if not any((c["w"] == "drop" or c["w"].endswith("_drop")) and c["root"] == ri and c["nlog"] == 0 for c in res["calls"]):
             viol.append(("C17:no-drop-helper", "no drop helper for %s %s (%s, %s)" % (r["kind"], r["name"], r["inst"], r["ctx"] or "NoContext")))
     return viol, dict(calls=len(res["calls"]), slots=len(allslots), slots_covered=len(allslots & covered), wrappers=len(res["wrappers"]))
